@@ -383,8 +383,8 @@ def specCell (pix cells : Nat) : Nat := if cells = 0 then 1 else max 1 (pix / ce
 /-- The model of `Kitty/Sixel.Resize` for a signed box at the terminal's cell geometry:
     (pixel size of the resized image, cell size, cell geometry). -/
 def resizeModel (s : Nat × Nat × Nat × Nat) (wPix hPix : Nat) (w h : Int) : Except Panic ((Nat × Nat) × (Nat × Nat) × (Nat × Nat) × Bool) := do
-  let gw := ImageTerm.termCell s.1 s.2.1
-  let gh := ImageTerm.termCell s.2.2.1 s.2.2.2
+  let gw := ImageTerm.termCellW s.1 s.2.1
+  let gh := ImageTerm.termCellH s.2.2.1 s.2.2.2
   let (pw, ph) ← ImageTerm.resizeDimsBox floatOps wPix hPix w h gw gh
   let raw ← ImageTerm.resizeRawBox floatOps wPix hPix w h gw gh
   let cw ← cellsUp pw gw
